@@ -379,6 +379,18 @@ def run(repo: Repo) -> Result:
             text(rq) == f"{blk_var}.required"
             or (isinstance(rq, ast.IfExp) and isinstance(rq.body, ast.Constant) and rq.body.value is False and text(rq.orelse) == f"{blk_var}.required" and _canon(rq.test) in (f"{stack_var} and (not {blk_var}.required)", f"{stack_var} and not {blk_var}.required"))
         )
+        rq_kw = kw.get("required")
+        if not rq_ok and isinstance(rq_kw, ast.Name):
+            # the same conditional written as statements: `<name> = False` only under
+            # `stack and not block.required`, `<name> = block.required` otherwise
+            from ..guards import conditions as _conds_rq
+
+            ba = [(y, {_canon(c) for c in cs_}) for y, cs_ in _conds_rq(st_.node) if isinstance(y, ast.Assign) and len(y.targets) == 1 and is_name(y.targets[0], rq_kw.id)]
+            rq_ok = (
+                len(ba) >= 1
+                and any(text(y.value) == f"{blk_var}.required" for y, _ in ba)
+                and all(text(y.value) == f"{blk_var}.required" or (isinstance(y.value, ast.Constant) and y.value.value is False and {stack_var, f"not {blk_var}.required"} <= cc_) for y, cc_ in ba)
+            )
         if not rq_ok:
             res.add("C18-REQUIRED", st_.qual, "required-carry", "the stack item must carry block.required (a non-required definition below a more derived one may clear it; nothing else)", st_.file, st_.line)
         if not (kw.get("block") is not None and is_name(kw["block"], blk_var) and kw.get("source_name") is not None and is_name(kw["source_name"], "source_name")):
